@@ -415,7 +415,19 @@ pub fn raw_file(cfg: &ConfigSpec, p: &RawParams) -> BoxedStrategy<RawFile>
         ..StmtParams::default()
     };
     let model = file_spec(cfg, &sp, 10, !p.valid_only).prop_map(RawSource::Model);
-    let text = proptest::sample::select(TEXTS).prop_map(|t| RawSource::Text(t.to_string()));
+    let text = prop_oneof![
+        9 => proptest::sample::select(TEXTS).prop_map(|t| RawSource::Text(t.to_string())),
+        // very long message literals / very long lines
+        1 => (proptest::sample::select(&[300usize, 5_000, 70_000][..]), any::<bool>()).prop_map(|(n, second)| {
+            let mut t = format!("fn long() {{\n    info!(\"{}\");\n", "y".repeat(n));
+            if second
+            {
+                t.push_str(&format!("    let _v = vec![{}0]; warn!(\"after a long line\");\n", "1, ".repeat(n / 3)));
+            }
+            t.push_str("}\n");
+            RawSource::Text(t)
+        }),
+    ];
     let max_repeat = p.max_repeat.max(1);
     let max_bytes = p.max_bytes;
     if p.valid_only
